@@ -184,7 +184,8 @@ func c13Case(t *rapid.T, rec *vh.Recorder) {
 		t.Fatalf("walk from: %v", err)
 	}
 	T := F.Clone()
-	style := rapid.IntRange(0, 11).Draw(t, "style")
+	style := rapid.IntRange(0, 13).Draw(t, "style")
+	tailRanges := false
 	var script []c12Edit
 	var sname string
 	bounds := shF.innerBounds()
@@ -225,6 +226,34 @@ func c13Case(t *rapid.T, rec *vh.Recorder) {
 			T = vt.FromSorted(es)
 			sname = fmt.Sprintf("append(%d)", m)
 		}
+	case style >= 12:
+		// `from` cut at one of its own natural leaf boundaries (chunking is content-defined, so the
+		// prefix ending at a leaf's last key is a map whose last leaf is complete), `to` = `from`
+		// plus a short or long appended run: the two trees share from's last leaf and `to`
+		// continues after it. Ranges that start inside that leaf and extend past from's last key
+		// are added below.
+		if ib := shF.innerBounds(); len(ib) >= 1 {
+			cut := ib[rapid.IntRange(0, len(ib)-1).Draw(t, "alignedCut")] + 1
+			F = vt.FromSorted(append([]vt.Entry(nil), F.E[:cut]...))
+			if fromM, err = w.bulk(F); err != nil {
+				t.Fatalf("bulk aligned from: %v", err)
+			}
+			if shF, err = w.shape(fromM); err != nil {
+				t.Fatalf("walk aligned from: %v", err)
+			}
+		}
+		m := rapid.SampledFrom([]int{1, 2, 3, 7, 40, 400, 3000}).Draw(t, "alignedAppend")
+		es := append([]vt.Entry(nil), F.E...)
+		for i := 0; i < m; i++ {
+			k := w.keyAt(fullHi+1+i, i%4)
+			if len(es) > 0 && vt.CompareRows(es[len(es)-1].K, k) >= 0 {
+				continue
+			}
+			es = append(es, vt.Entry{K: k, V: w.valAt(i)})
+		}
+		T = vt.FromSorted(es)
+		sname = fmt.Sprintf("aligned-prefix(+%d)", m)
+		tailRanges = true
 	case style == 9:
 		n2 := rapid.SampledFrom([]int{5, 700, 4000}).Draw(t, "unrelatedN")
 		es := make([]vt.Entry, n2)
@@ -345,6 +374,25 @@ func c13Case(t *rapid.T, rec *vh.Recorder) {
 	nr := rapid.IntRange(4, 8).Draw(t, "nranges")
 	for i := 0; i < nr; i++ {
 		a, b := genEnd(fmt.Sprintf("r%d.start", i)), genEnd(fmt.Sprintf("r%d.stop", i))
+		if tailRanges && i < 2 {
+			// start within the last few keys of the shorter map, stop open or inside the longer one
+			short, long := F, T
+			if short.Len() > long.Len() {
+				short, long = long, short
+			}
+			if short.Len() > 0 && long.Len() > short.Len() {
+				o := short.Len() - 1 - rapid.IntRange(0, 4).Draw(t, fmt.Sprintf("r%d.tailBack", i))
+				if o < 0 {
+					o = 0
+				}
+				a = c13End{row: short.E[o].K, desc: fmt.Sprintf("tail#%d", o)}
+				b = c13End{desc: "nil"}
+				if i == 1 {
+					q := short.Len() + rapid.IntRange(0, long.Len()-short.Len()-1).Draw(t, fmt.Sprintf("r%d.tailStop", i))
+					b = c13End{row: long.E[q].K, desc: fmt.Sprintf("long#%d", q)}
+				}
+			}
+		}
 		inverted := false
 		if a.row != nil && b.row != nil && vt.CompareRows(a.row, b.row) > 0 {
 			if rapid.IntRange(0, 6).Draw(t, fmt.Sprintf("r%d.keepInverted", i)) > 0 {
